@@ -30,14 +30,23 @@ Definition tstatus_ok (t : tstatus) : bool := match t with TOk => true | _ => fa
 (* a regular expression as the run uses it: does it compile, and which names it matches *)
 Inductive rx := RxBad | RxOk (m : str -> bool).
 
-(* one requested mock = (interface, one entry of its `configs` list) after ParseTemplates *)
+Inductive formatter := FGofmt | FGoimports | FNoop | FUnknown.
+
+(* one requested mock = (interface, one entry of its `configs` list) after ParseTemplates.
+   The settings that apply to an output file as a whole (schema settings, formatter,
+   force-file-write) are read from the FIRST mock added to the file's collection
+   (fileConfig := interfacesInFile.interfaces[0].Config): every request carries its own. *)
 Record request := {
   q_iface : str;
   q_tstatus : tstatus;          (* ParseTemplates of this entry *)
   q_key : str;                  (* Config.FilePath().String() = Clean(dir/filename): the map key *)
   q_path : path;                (* the file that this string denotes (relative: below the cwd) *)
   q_pkgname : str;
-  q_template : str;             (* interface-level `template` value: only compared, see k_template *)
+  q_template : str;             (* `template` value of this entry *)
+  q_require_schema : bool;      (* require-template-schema-exists *)
+  q_schema_ok : bool;           (* its template-schema can be read and is a JSON schema *)
+  q_force : bool;               (* force-file-write *)
+  q_formatter : formatter;
   q_prep_ok : bool;             (* method data can be built (replace-type targets exist) *)
   q_data_ok : bool;             (* the schema accepts this entry's template-data *)
   q_exec_ok : bool              (* executing the template does not fail on this interface *)
@@ -49,18 +58,16 @@ Record decl := { d_name : str; d_reqs : list request }.
 
 Inductive tkind := TBuiltin | TRemote.       (* testify/matryer  |  file:// http:// https:// *)
 
-(* package-level settings read by the write loop (packageConfig.Config after ParseTemplates
-   with iface = nil) *)
-Record pkgcfg := {
-  c_tstatus : tstatus;
-  c_tkind : tkind;
-  c_tfound : bool;              (* builtin: name is known; remote: can be read *)
-  c_tparses : bool;             (* text/template parses it *)
-  c_require_schema : bool;      (* require-template-schema-exists *)
-  c_schema_ok : bool;           (* remote schema can be read and is a JSON schema *)
-  c_data_ok : bool;             (* the schema accepts the package-level template-data *)
-  c_force : bool                (* force-file-write *)
+(* what a `template` value denotes *)
+Record tinfo := {
+  ti_kind : tkind;
+  ti_found : bool;              (* builtin: name is known; remote: can be read *)
+  ti_parses : bool              (* text/template parses it *)
 }.
+
+(* what the write loop still reads from the package config: packageConfig.Config.ParseTemplates
+   with iface = nil must succeed *)
+Record pkgcfg := { c_tstatus : tstatus }.
 
 Record package := {
   p_path : str;                 (* import path *)
@@ -83,16 +90,14 @@ Inductive cfg_status :=
 | CfgBadType.        (* a value of the wrong shape *)
 
 (* a package with recursive: true: packages.Load(p/...) and what it found *)
-Record rec_root := { rr_load_ok : bool; rr_subpkgs : list str }.
-
-Inductive formatter := FGofmt | FGoimports | FNoop | FUnknown.
+(* rr_exclude: the exclude-subpkg-regex list of that package (its own, else the inherited one) *)
+Record rec_root := { rr_load_ok : bool; rr_subpkgs : list str; rr_exclude : list rx }.
 
 Record world := {
   w_cfg : cfg_status;
   w_roots : list rec_root;          (* in c.Packages iteration order *)
-  w_exclude : list rx;              (* exclude-subpkg-regex that Initialize consults *)
   w_pkgs : list package;            (* packages.Load result, in its order *)
-  w_formatter : formatter;
+  w_tinfo : str -> tinfo;           (* the templates by name / URL *)
   w_modaux : list (str * list str) -> bool;   (* see Cfg/GoMod.v *)
   w_fs : fs;
   w_ro : romap;
@@ -110,11 +115,11 @@ Fixpoint should_exclude (l : list rx) (s : str) : option bool :=
   | RxOk m :: t => if m s then Some true else should_exclude t s
   end.
 
-Definition root_ok (ex : list rx) (r : rec_root) : bool :=
+Definition root_ok (r : rec_root) : bool :=
   rr_load_ok r &&
-  forallb (fun s => match should_exclude ex s with Some _ => true | None => false end) (rr_subpkgs r).
+  forallb (fun s => match should_exclude (rr_exclude r) s with Some _ => true | None => false end) (rr_subpkgs r).
 
-Definition init_ok (w : world) : bool := forallb (root_ok (w_exclude w)) (w_roots w).
+Definition init_ok (w : world) : bool := forallb root_ok (w_roots w).
 
 (* ---------- Parser.ParsePackages ---------- *)
 Definition has_files (p : package) : bool := negb (Nat.eqb (p_nfiles p) 0).
@@ -155,6 +160,7 @@ Record coll := {
   k_key : str;                  (* the map key *)
   k_path : path;                (* outFilePath: the file the key denotes *)
   k_pkg : package;              (* srcPkg of the first interface *)
+  k_first : request;            (* interfaces[0]: its config governs the file *)
   k_pkgname : str;
   k_template : str;
   k_reqs : list request
@@ -167,12 +173,13 @@ Definition same_group (k : coll) (p : package) (q : request) : bool :=
 (* NewInterfaceCollection on first sight of the path, then Append with its checks *)
 Fixpoint add_req (m : list coll) (p : package) (q : request) : option (list coll) :=
   match m with
-  | [] => Some [ {| k_key := q_key q; k_path := q_path q; k_pkg := p; k_pkgname := q_pkgname q;
+  | [] => Some [ {| k_key := q_key q; k_path := q_path q; k_pkg := p; k_first := q; k_pkgname := q_pkgname q;
                     k_template := q_template q; k_reqs := [q] |} ]
   | k :: t =>
     if seqb (k_key k) (q_key q) then
       if same_group k p q
-      then Some ({| k_key := k_key k; k_path := k_path k; k_pkg := k_pkg k; k_pkgname := k_pkgname k;
+      then Some ({| k_key := k_key k; k_path := k_path k; k_pkg := k_pkg k; k_first := k_first k;
+                    k_pkgname := k_pkgname k;
                     k_template := k_template k; k_reqs := k_reqs k ++ [q] |} :: t)
       else None
     else option_map (cons k) (add_req t p q)
@@ -231,21 +238,24 @@ Definition format_ok (fm : formatter) (valid : bool) : bool :=
   | FUnknown => false
   end.
 
-Definition is_remote (c : pkgcfg) : bool := match c_tkind c with TRemote => true | TBuiltin => false end.
+Definition is_remote (t : tinfo) : bool := match ti_kind t with TRemote => true | TBuiltin => false end.
 (* a schema is present (hence validation happens) for builtin templates always, for remote
    ones only when require-template-schema-exists *)
-Definition validates (c : pkgcfg) : bool := negb (is_remote c) || c_require_schema c.
+Definition validates (t : tinfo) (g : request) : bool := negb (is_remote t) || q_require_schema g.
 
-(* Generate: the stages that do not touch the file system, in the order of the code *)
+(* Generate: the stages that do not touch the file system, in the order of the code.
+   The file-level template-data that validateSchema checks first is the first mock's own
+   map, which is checked again in the loop over the interfaces. *)
 Definition pure_failure (w : world) (k : coll) : option stage :=
-  let c := p_cfg (k_pkg k) in
+  let g := k_first k in
+  let t := w_tinfo w (k_template k) in
   if negb (forallb q_prep_ok (k_reqs k)) then Some SPrepare
-  else if negb (c_tfound c) then Some SGetTemplate
-  else if is_remote c && c_require_schema c && negb (c_schema_ok c) then Some SGetSchema
-  else if validates c && negb (c_data_ok c && forallb q_data_ok (k_reqs k)) then Some SValidate
-  else if negb (c_tparses c) then Some SParseTemplate
+  else if negb (ti_found t) then Some SGetTemplate
+  else if is_remote t && q_require_schema g && negb (q_schema_ok g) then Some SGetSchema
+  else if validates t g && negb (forallb q_data_ok (k_reqs k)) then Some SValidate
+  else if negb (ti_parses t) then Some SParseTemplate
   else if negb (forallb q_exec_ok (k_reqs k)) then Some SExecute
-  else if negb (format_ok (w_formatter w) (w_valid_go w (k_key k))) then Some SFormat
+  else if negb (format_ok (q_formatter g) (w_valid_go w (k_key k))) then Some SFormat
   else None.
 
 Definition gomod_ok (w : world) (f : fs) (dir : path) : bool :=
@@ -268,7 +278,7 @@ Definition gen_file (w : world) (f : fs) (k : coll) : fres * fs :=
          | None =>
            let '(ok2, f2) := mkdir_all (w_ro w) f1 (parent (k_path k)) in
            if negb ok2 then (FFail SMkOutDir, f2)
-           else if exists_ f2 (k_path k) && negb (c_force c) then (FFail SExists, f2)
+           else if exists_ f2 (k_path k) && negb (q_force (k_first k)) then (FFail SExists, f2)
            else match write_file (w_ro w) f2 (k_path k) (w_content w (k_key k)) with
                 | Some f3 => (FOk, f3)
                 | None => (FFail SWrite, f2)
@@ -334,16 +344,21 @@ Definition selected_reqs (w : world) : list (package * request) := sel (all_decl
 Definition out_paths (w : world) : list path := map (fun pq => q_path (snd pq)) (selected_reqs w).
 Definition out_keys (w : world) : list str := map (fun pq => q_key (snd pq)) (selected_reqs w).
 
-(* the source package whose settings govern the output file with key x (None: no such
-   output file, or the run stops before the files are grouped) *)
+(* the source package of the output file with key x (None: no such output file, or the run
+   stops before the files are grouped) *)
 Definition file_pkg (w : world) (x : str) : option package :=
   match collections w with
   | Some m => option_map k_pkg (find_coll m x)
   | None => None
   end.
+(* the mock whose config governs the output file with key x: the first one added to it *)
+Definition file_gov (w : world) (x : str) : option request :=
+  match collections w with
+  | Some m => option_map k_first (find_coll m x)
+  | None => None
+  end.
 (* the force-file-write value that the run uses for the output file with key x *)
-Definition force_of (w : world) (x : str) : option bool :=
-  option_map (fun p => c_force (p_cfg p)) (file_pkg w x).
+Definition force_of (w : world) (x : str) : option bool := option_map q_force (file_gov w x).
 
 (* producing the file at x fails in template retrieval, schema retrieval / validation,
    template parsing / execution, formatting, data preparation, or in the package-level
@@ -391,27 +406,32 @@ Definition has_class (w : world) (c : fclass) : Prop :=
   | PkgLoadError => exists p, In p (w_pkgs w) /\ has_errors p = true /\
                               (has_files p = true \/ has_sub (w_pkgs w) p = false)
   | UnknownTemplate => exists p q, In (p, q) (selected_reqs w) /\
-                                   c_tkind (p_cfg p) = TBuiltin /\ c_tfound (p_cfg p) = false
+                                   ti_kind (w_tinfo w (q_template q)) = TBuiltin /\
+                                   ti_found (w_tinfo w (q_template q)) = false
   | MissingRemoteTemplate => exists p q, In (p, q) (selected_reqs w) /\
-                                   c_tkind (p_cfg p) = TRemote /\ c_tfound (p_cfg p) = false
-  | UnknownFormatter => w_formatter w = FUnknown /\ selected_reqs w <> []
+                                   ti_kind (w_tinfo w (q_template q)) = TRemote /\
+                                   ti_found (w_tinfo w (q_template q)) = false
+  | UnknownFormatter => exists x g, file_gov w x = Some g /\ q_formatter g = FUnknown
   | ConfigUnreadable => w_cfg w = CfgNotFound \/ w_cfg w = CfgBadYaml \/ w_cfg w = CfgBadType
   | UnknownKey => w_cfg w = CfgUnknownKey
   | BadRegexSubpkg => exists r s, In r (w_roots w) /\ In s (rr_subpkgs r) /\
-                                  should_exclude (w_exclude w) s = None
+                                  should_exclude (rr_exclude r) s = None
   | BadRegexInterface => exists p d, In (p, d) (all_decls (w_pkgs w)) /\ bad_regex_reached p (d_name d)
   | CyclicTemplate => exists p q, In (p, q) (selected_reqs w) /\
                                   (q_tstatus q = TCyclic \/ c_tstatus (p_cfg p) = TCyclic)
   | BadTemplatedValue => exists p q, In (p, q) (selected_reqs w) /\
                                   (q_tstatus q = TBad \/ c_tstatus (p_cfg p) = TBad)
-  | SchemaMissing => exists p q, In (p, q) (selected_reqs w) /\ c_tkind (p_cfg p) = TRemote /\
-                                 c_require_schema (p_cfg p) = true /\ c_schema_ok (p_cfg p) = false
-  | SchemaReject => exists p q, In (p, q) (selected_reqs w) /\ validates (p_cfg p) = true /\
-                                (c_data_ok (p_cfg p) = false \/ q_data_ok q = false)
-  | TemplateSyntax => exists p q, In (p, q) (selected_reqs w) /\ c_tparses (p_cfg p) = false
+  | SchemaMissing => exists x g, file_gov w x = Some g /\
+                                 ti_kind (w_tinfo w (q_template g)) = TRemote /\
+                                 q_require_schema g = true /\ q_schema_ok g = false
+  | SchemaReject => exists p q g, In (p, q) (selected_reqs w) /\ q_data_ok q = false /\
+                                  file_gov w (q_key q) = Some g /\
+                                  validates (w_tinfo w (q_template q)) g = true
+  | TemplateSyntax => exists p q, In (p, q) (selected_reqs w) /\
+                                  ti_parses (w_tinfo w (q_template q)) = false
   | TemplateExecution => exists p q, In (p, q) (selected_reqs w) /\ q_exec_ok q = false
-  | InvalidGoOutput => exists p q, In (p, q) (selected_reqs w) /\ w_valid_go w (q_key q) = false /\
-                                   w_formatter w <> FNoop
+  | InvalidGoOutput => exists p q g, In (p, q) (selected_reqs w) /\ w_valid_go w (q_key q) = false /\
+                                     file_gov w (q_key q) = Some g /\ q_formatter g <> FNoop
   | PrepareFailure => exists p q, In (p, q) (selected_reqs w) /\ q_prep_ok q = false
   | ConflictPackage => exists p1 q1 p2 q2, In (p1, q1) (selected_reqs w) /\ In (p2, q2) (selected_reqs w) /\
                                            q_key q1 = q_key q2 /\ p_path p1 <> p_path p2
